@@ -196,6 +196,10 @@ def build(tier):
         {"id": "ce_bitw_b", "file": CEF, "locator": dict(_cek(2), arm0="Intrinsic::And")},
         {"id": "ce_shift", "file": CEF, "locator": dict(_cek(1), arm0="Intrinsic::Lsh")},
         {"id": "ce_shift_b", "file": CEF, "locator": dict(_cek(2), arm0="Intrinsic::Lsh")},
+        {"id": "cmp_gt", "file": CF, "locator": {"kind": "in_fn", "fn": {"kind": "fn", "name": "combine_cmp"}, "what": "match",
+                                                  "scrutinee": "(&val1.get_content(context).value, &val2.get_content(context).value,)", "nth": 0}},
+        {"id": "cmp_lt", "file": CF, "locator": {"kind": "in_fn", "fn": {"kind": "fn", "name": "combine_cmp"}, "what": "match",
+                                                  "scrutinee": "(&val1.get_content(context).value, &val2.get_content(context).value,)", "nth": 1}},
     ] + [{"id": "op_" + tr, "file": UF, "locator": {"kind": "impl", "self_ty": "&'a U256", "trait": "std::ops::%s<&'a U256>" % tr}} for tr in SPECIMPL]
     fr = vf.extract(specs)
     log = []
@@ -250,6 +254,26 @@ pub fn %s(%s) -> (res: Option<U256>)
 }""" % (tag, op, name, params, req, post, proof, body))
             log.append({"rule": "R5", "before": "const_eval_intrinsic arm Intrinsic::%s (%s)" % (op, tag), "after": "fn %s" % name, "times": 1})
             obs.append(vf.Ob(name, "C06", panic_prop="C17", what="const_eval_intrinsic %s Intrinsic::%s: Some(v) ==> the VM wide-int op yields v; callee preconditions (no BigUint panic) hold" % (tag, op)))
+    # combine_cmp: ordering predicates on 256-bit constants (WQCM gt / lt compare the 256-bit values)
+    for fid, opname, rel in (("cmp_gt", "GreaterThan", ">"), ("cmp_lt", "LessThan", "<")):
+        found = 0
+        for arm in fr[fid]["arms"]:
+            m = re.match(r"\(\s*(U256|B256)\((\w+)\)\s*,\s*(U256|B256)\((\w+)\)\s*\)$", arm["pat"].strip())
+            if not m:
+                continue
+            found += 1
+            kind, a, _, b = m.groups()
+            name = "arm_cmp_%s_%s" % (opname.lower(), kind.lower())
+            arms.append("""/// combine_cmp %s arm on %s
+pub fn %s(%s: &U256, %s: &U256) -> (res: bool)
+    ensures res == (%s.0@ %s %s.0@)
+{
+    %s
+}""" % (opname, kind, name, a, b, a, rel, b, arm["body"]))
+            log.append({"rule": "R5", "before": "combine_cmp %s arm (%s)" % (opname, kind), "after": "fn %s" % name, "times": 1})
+            obs.append(vf.Ob(name, "C06", panic_prop="C17", what="combine_cmp %s on %s constants == comparison of the 256-bit values (VM WQCM)" % (opname, kind)))
+        if found != 2:
+            raise vf.Undecided("combine_cmp %s: expected U256 and B256 arms" % opname)
     if len(arms) < 10:
         raise vf.Undecided("expected at least 10 U256 folding arms, found %d" % len(arms))
     for n in CONTRACTS:
